@@ -107,6 +107,23 @@ def do_decode(case: Case) -> str | None:
     return None
 
 
+def do_nullable(case: Case, null: bool) -> str | None:
+    """The nullable variants (KIP-893 marker) of the same class's writer and reader, for a value or for null."""
+    from kio.serial import entity_reader, entity_writer
+
+    want = b"\xff" if null else b"\x01" + case.ref
+    value = None if null else case.inst
+    buf = io.BytesIO()
+    entity_writer(case.cls, nullable=True)(buf, value)
+    if buf.getvalue() != want:
+        return f"nullable encode of {walk.class_path(case.cls)} ({'null' if null else 'value'}) gave {buf.getvalue()[:40].hex()}.. instead of {want[:40].hex()}.."
+    src = io.BytesIO(want + b"\xee")
+    got = entity_reader(case.cls, nullable=True)(src)
+    if got != value or src.tell() != len(want):
+        return f"nullable decode of {walk.class_path(case.cls)} ({'null' if null else 'value'}) gave a different value or position {src.tell()}/{len(want)}"
+    return None
+
+
 def do_fail(case: Case, rng) -> str | None:  # noqa: ANN001
     """A call that fails part-way: truncated decode, or a sink/source that raises."""
     from kio.serial import entity_reader, entity_writer
@@ -147,7 +164,7 @@ def run_history(res: Result, rng, classes: list[type], hid: str, reuse_max: int)
     cases = [Case(c, rng, f"{hid}/{k}") for k, c in enumerate(chosen)]
     ops = []
     for k in range(rng.randint(30, 160)):
-        ops.append((rng.choice(("create_r", "create_w", "enc", "dec", "enc", "dec", "fail", "reuse")), rng.randrange(len(cases))))
+        ops.append((rng.choice(("create_r", "create_w", "enc", "dec", "enc", "dec", "fail", "reuse", "nullable", "null")), rng.randrange(len(cases))))
     log = []
     compared = 0
     for op, ci in ops:
@@ -164,7 +181,10 @@ def run_history(res: Result, rng, classes: list[type], hid: str, reuse_max: int)
                 if rng.random() < 0.3:
                     entity_writer(case.cls, nullable=True)
                 continue
-            if op == "fail":
+            if op in ("nullable", "null"):
+                why = do_nullable(case, op == "null")
+                compared += 2
+            elif op == "fail":
                 why = do_fail(case, rng)
             elif op == "reuse":
                 why = None
@@ -298,10 +318,13 @@ def schedules(res: Result, shard_i: int, shard_n: int, total: int, sigs: set, li
                         entity_writer(case.cls)
             failures: list = []
 
+            variant = {(t, o): rng.choice(("plain", "plain", "nullable", "null")) for t in range(nthreads) for o in range(2)}
+
             def body(t: int, cs=None) -> None:  # noqa: ANN001
                 for o, case in enumerate(thread_cases[t]):
                     try:
-                        why = do_encode(case) or do_decode(case)
+                        kind = variant[(t, o)]
+                        why = (do_encode(case) or do_decode(case)) if kind == "plain" else do_nullable(case, kind == "null")
                     except BaseException as exc:  # noqa: BLE001
                         why = f"raised {exc!r}: {traceback.format_exc()[-600:]}"
                     if why:
@@ -527,7 +550,6 @@ def c19_worker(res: Result, i: int, n: int) -> None:
     lines: set = set()
     schedules(res, i, n, 3200 if quick else 240000, sigs, lines)
     fresh_schedules(res, i, n, 160 if quick else 4800, sigs)
-    res.coverage["distinct_schedule_signatures_list"] = sorted(sigs)[:0]
     res.coverage["distinct_schedule_signatures"] = len(sigs)
     res.coverage["preemption_lines"] = sorted(lines)
     if i == 0:
